@@ -150,3 +150,87 @@ theorem escapeWith_tokenized (pairs : List (Char × Str)) (hp : PairsOK pairs = 
     simpa using this
 
 end Ombott.ErrorPage
+
+namespace Ombott.ErrorPage
+open Py
+
+/-! ### escaped text reads back as the original -/
+
+theorem matchEntity_append (ent : Str) (c : Char) (rest : Str) (h : matchEntity ent = some (c, [])) :
+    matchEntity (ent ++ rest) = some (c, rest) := by
+  unfold matchEntity at h
+  split at h <;> simp only [Option.some.injEq, Prod.mk.injEq, reduceCtorEq] at h <;>
+    (obtain ⟨rfl, rfl⟩ := h; rfl)
+
+/-- every replacement of the table is a reference an HTML parser decodes to the replaced
+character (decidable; evaluated on the generated tables) -/
+def PairsDecode (pairs : List (Char × Str)) : Bool :=
+  pairs.all fun p => matchEntity p.2 == some (p.1, [])
+
+theorem htmlData_escapeWith (pairs : List (Char × Str)) (hp : PairsOK pairs = true)
+    (hd : PairsDecode pairs = true) (s : Str) (fuel : Nat) (hf : s.length ≤ fuel) :
+    htmlData fuel (escapeWith pairs s) = some s := by
+  induction s generalizing fuel with
+  | nil => cases fuel <;> rfl
+  | cons c cs ih =>
+    cases fuel with
+    | zero => simp at hf
+    | succ f =>
+      have hf' : cs.length ≤ f := by simp only [List.length_cons] at hf; omega
+      have hstep : escapeWith pairs (c :: cs) = (pairs.lookup c).getD [c] ++ escapeWith pairs cs := by
+        simp [escapeWith]
+      rw [hstep]
+      simp only [PairsOK, Bool.and_eq_true, List.all_eq_true] at hp
+      cases hl : pairs.lookup c with
+      | none =>
+        have hns : c ∉ special := by
+          intro hc
+          have := hp.1 c hc
+          rw [hl] at this
+          simp at this
+        have h1 : (c == '&') = false := by
+          rw [beq_eq_false_iff_ne]; rintro rfl; exact hns (by decide)
+        have h2 : (c == '<') = false := by
+          rw [beq_eq_false_iff_ne]; rintro rfl; exact hns (by decide)
+        simp only [Option.getD_none, List.cons_append, List.nil_append, htmlData, h1, h2,
+          Bool.false_eq_true, if_false, ih f hf']
+        rfl
+      | some r =>
+        have hmem := lookup_mem hl
+        have hent : r ∈ entities := by
+          have := hp.2 (c, r) hmem
+          simpa using this
+        obtain ⟨⟨r', hr', _⟩, _⟩ := entities_shape r hent
+        simp only [PairsDecode, List.all_eq_true, beq_iff_eq] at hd
+        have hm := matchEntity_append r c (escapeWith pairs cs) (hd (c, r) hmem)
+        simp only [Option.getD_some]
+        rw [hr'] at hm ⊢
+        simp only [List.cons_append] at hm ⊢
+        simp only [htmlData, beq_self_eq_true, if_true, hm, ih f hf']
+        rfl
+
+theorem escapeWith_length (pairs : List (Char × Str)) (hp : PairsOK pairs = true) (s : Str) :
+    s.length ≤ (escapeWith pairs s).length := by
+  induction s with
+  | nil => simp [escapeWith]
+  | cons c cs ih =>
+    have hstep : escapeWith pairs (c :: cs) = (pairs.lookup c).getD [c] ++ escapeWith pairs cs := by
+      simp [escapeWith]
+    rw [hstep, List.length_append, List.length_cons]
+    have : 1 ≤ ((pairs.lookup c).getD [c]).length := by
+      cases hl : pairs.lookup c with
+      | none => simp
+      | some r =>
+        simp only [PairsOK, Bool.and_eq_true, List.all_eq_true] at hp
+        have hent : r ∈ entities := by
+          have := hp.2 (c, r) (lookup_mem hl)
+          simpa using this
+        obtain ⟨⟨r', hr', _⟩, _⟩ := entities_shape r hent
+        simp [hr']
+    omega
+
+theorem htmlText_escapeWith (pairs : List (Char × Str)) (hp : PairsOK pairs = true)
+    (hd : PairsDecode pairs = true) (s : Str) : htmlText (escapeWith pairs s) = some s :=
+  htmlData_escapeWith pairs hp hd s _ (escapeWith_length pairs hp s)
+
+end Ombott.ErrorPage
